@@ -227,9 +227,11 @@ Lemma step_lludp_dispatch : forall c m m' es r,
 Proof.
   intros c m m' es r H. unfold lludp_dispatch in H. destruct (mkind c) as [| |n].
   - inversion H as [H']. eapply step_call_all; eauto.
-  - destruct (drop m) as [[m1 ws]|] eqn:D; [|discriminate]. inversion H; subst.
-    apply step_snoc_plain; [plain | eapply step_drop; eauto].
-  - destruct (rlv_loop n 0 (mmods c) m true) as [[m1 e1] all] eqn:R. apply step_rlv_loop in R.
+  - destruct (finalized m) eqn:F.
+    + inversion H; subst. cbn. apply step_cons_plain; [plain | apply step_refl].
+    + destruct (drop m) as [[m1 ws]|] eqn:D; [|discriminate]. inversion H; subst.
+      apply step_snoc_plain; [plain | eapply step_drop; eauto].
+  - destruct (rlv_loop n 0 (mmods c) m (Nat.ltb 0 n)) as [[m1 e1] all] eqn:R. apply step_rlv_loop in R.
     destruct all.
     + inversion H; subst. exact R.
     + destruct (call_all PtLludp 0 (mmods c) m1) as [[m2 e2] r2] eqn:C. apply step_call_all in C.
@@ -249,6 +251,17 @@ Proof.
   destruct (queued m); split; auto; try discriminate. intros [|]; discriminate.
 Qed.
 
+Lemma lludp_dispatch_some : forall c m, lludp_dispatch c m <> None.
+Proof.
+  intros c m. unfold lludp_dispatch. destruct (mkind c) as [| |n].
+  - discriminate.
+  - destruct (finalized m) eqn:F; [discriminate|].
+    destruct (drop m) as [[m1 ws]|] eqn:D; [discriminate|].
+    apply drop_none_iff in D. congruence.
+  - destruct (rlv_loop n 0 (mmods c) m (Nat.ltb 0 n)) as [[mx ex] [|]]; [discriminate|].
+    destruct (call_all PtLludp 0 (mmods c) mx) as [[? ?] ?]; discriminate.
+Qed.
+
 Definition hp_post (c : msgcfg) (es : list ev) (mf : mst) (st : status) : Prop :=
   good mf /\
   count is_orig es = b2n (sent mf) /\
@@ -257,7 +270,7 @@ Definition hp_post (c : msgcfg) (es : list ev) (mf : mst) (st : status) : Prop :
   | StPktClaimed => count is_log es = 0 /\ count is_escape es = 0
   | StHandled => count is_log es = 1 /\ count is_escape es = 0
   | StForward => count is_log es = 1 /\ count is_escape es = 0 /\ finalized mf = true
-  | StEscaped => mkind c = KCommand /\ count is_log es = 0 /\ count is_escape es = 1
+  | StEscaped => False
   end.
 
 Lemma step_from_wire : forall r a m es, step (wire_msg r a) m es ->
@@ -297,14 +310,7 @@ Proof.
   apply step_handle_mh in E2.
   pose proof (step_trans _ _ _ _ _ E0 (step_trans _ _ _ _ _ E1 E2)) as S2.
   destruct (lludp_dispatch c m2) as [[[m3 e3] handled]|] eqn:E3.
-  2:{ (* escape out of handle_lludp_message: only the command channel *)
-    inversion H; subst; clear H.
-    assert (K : mkind c = KCommand).
-    { unfold lludp_dispatch in E3. destruct (mkind c) as [| |n]; [discriminate|reflexivity|].
-      destruct (rlv_loop n 0 (mmods c) mf true) as [[mx ex] [|]]; [discriminate|].
-      destruct (call_all PtLludp 0 (mmods c) mx) as [[? ?] ?]; discriminate. }
-    apply step_from_wire in S2. regroup pre. destruct S2 as (G & A & B & C & D).
-    unfold hp_post. rewrite !count_app, A, C, D. cbn. split; [exact G|]. repeat split; auto; lia. }
+  2:{ (* handle_lludp_message never raises *) exfalso. eapply lludp_dispatch_some; eauto. }
   apply step_lludp_dispatch in E3.
   pose proof (step_trans _ _ _ _ _ S2 E3) as S3.
   rewrite <- !app_assoc in S3.
@@ -389,30 +395,17 @@ Proof.
     destruct H; discriminate.
 Qed.
 
-Lemma escape_only_command : forall w c, hp_status w c = StEscaped -> mkind c = KCommand.
-Proof.
-  intros w c Hs. destruct (hp_post_proj w c) as (_ & _ & _ & P). rewrite Hs in P. tauto.
-Qed.
-
-Lemma no_escape_trace : forall w c, mkind c <> KCommand ->
+Lemma never_escapes : forall w c,
   hp_status w c <> StEscaped /\ count is_escape (hp_trace w c) = 0.
 Proof.
-  intros w c K. destruct (hp_post_proj w c) as (_ & _ & _ & P).
+  intros w c. destruct (hp_post_proj w c) as (_ & _ & _ & P).
   destruct (hp_status w c); split; try discriminate; try tauto.
 Qed.
 
-Lemma logger_runs : forall w c, mkind c <> KCommand -> hp_status w c <> StPktClaimed ->
-  count is_log (hp_trace w c) = 1.
-Proof.
-  intros w c K S. destruct (hp_post_proj w c) as (_ & _ & _ & P).
-  destruct (hp_status w c); try tauto.
-Qed.
-
-Lemma logger_runs_command : forall w c, hp_status w c = StHandled \/ hp_status w c = StForward ->
-  count is_log (hp_trace w c) = 1.
+Lemma logger_runs : forall w c, hp_status w c <> StPktClaimed -> count is_log (hp_trace w c) = 1.
 Proof.
   intros w c S. destruct (hp_post_proj w c) as (_ & _ & _ & P).
-  destruct S as [S|S]; rewrite S in P; tauto.
+  destruct (hp_status w c); try tauto.
 Qed.
 
 (* ------------------------------------------------------------------ isolation *)
@@ -577,8 +570,8 @@ Proof.
   intros c m. unfold lludp_dispatch. cbn [mkind mmods calm_cfg]. destruct (mkind c) as [| |n].
   - destruct (call_all PtLludp 0 (mmods c) m) as [[m' es] r] eqn:C.
     destruct (call_all_calm _ _ _ _ _ _ _ C) as (e2 & C2 & S2). rewrite C2. eauto.
-  - destruct (drop m) as [[m1 ws]|]; [|reflexivity]. eauto.
-  - destruct (rlv_loop n 0 (mmods c) m true) as [[m1 e1] all] eqn:R.
+  - destruct (if finalized m then Some (m, []) else drop m) as [[m1 ws]|]; [|reflexivity]. eauto.
+  - destruct (rlv_loop n 0 (mmods c) m (Nat.ltb 0 n)) as [[m1 e1] all] eqn:R.
     destruct (rlv_loop_calm _ _ _ _ _ _ _ _ R) as (e1' & R' & S1). rewrite R'.
     destruct all.
     + eauto.
@@ -799,9 +792,9 @@ Proof.
   { unfold lludp_dispatch. destruct (mkind c) as [| |n]; cbn in Uk; try discriminate.
     - destruct (call_all PtLludp 0 (mmods c) m2) as [[m3 e3] r] eqn:C.
       destruct (call_all_quiet _ _ _ _ _ _ _ Um C S2) as [S3 ->]. eauto.
-    - destruct n as [|n]; [discriminate|].
-      destruct (rlv_loop (S n) 0 (mmods c) m2 true) as [[m3 e3] all] eqn:R.
-      destruct (rlv_loop_quiet _ _ _ _ _ _ _ _ Um R S2) as [S3 ->].
+    - destruct (rlv_loop n 0 (mmods c) m2 (Nat.ltb 0 n)) as [[m3 e3] all] eqn:R.
+      destruct (rlv_loop_quiet _ _ _ _ _ _ _ _ Um R S2) as [S3 Ha].
+      assert (all = false) as -> by (destruct n; exact Ha).
       destruct (call_all PtLludp 0 (mmods c) m3) as [[m4 e4] r] eqn:C.
       destruct (call_all_quiet _ _ _ _ _ _ _ Um C S3) as [S4 ->]. eauto. }
   destruct D as (m3 & e3 & D & [Q3 D3]). rewrite D. rewrite Q3. cbn [andb].
@@ -848,19 +841,15 @@ Proof.
   destruct (run_history w1 t) as [w2 rest]. cbn in *. f_equal. exact IH.
 Qed.
 
-Lemma history_no_escape : forall cs w, Forall (fun c => mkind c <> KCommand) cs ->
+Lemma history_no_escape : forall cs w,
   Forall (fun r => snd (snd r) <> StEscaped /\ count is_escape (fst r) = 0 /\
                    (snd (snd r) <> StPktClaimed -> count is_log (fst r) = 1))
          (snd (run_history w cs)).
 Proof.
-  induction cs as [|c t IH]; intros w HK; cbn.
-  - constructor.
-  - inversion HK as [|? ? K HK']; subst.
-    pose proof (no_escape_trace w c K) as [N1 N2]. pose proof (logger_runs w c K) as N3.
-    unfold hp_trace, hp_status in *.
-    destruct (handle_packet w c) as [[w1 es] r] eqn:E. cbn in *.
-    specialize (IH w1 HK'). destruct (run_history w1 t) as [w2 rest]. cbn in *.
-    constructor; [|exact IH]. cbn. auto.
+  intros cs w.
+  apply (run_history_all (fun es _ st => st <> StEscaped /\ count is_escape es = 0 /\
+                                         (st <> StPktClaimed -> count is_log es = 1))).
+  intros w0 c. destruct (never_escapes w0 c) as [N1 N2]. repeat split; auto. apply logger_runs.
 Qed.
 
 Lemma history_calm : forall cs w,
@@ -876,23 +865,23 @@ Proof.
   destruct IH as [IH1 IH2]. split; [exact IH1|]. rewrite S2, IH2. reflexivity.
 Qed.
 
-(* ------------------------------------------------------------------ what does NOT hold (current code) *)
+(* ------------------------------------------------------------------ regression instances and what still does NOT hold *)
 Definition w_one_sub : world := mk_world [(1, false)] [] [] [].
 Definition w_two_subs : world := mk_world [(1, false); (2, false)] [] [] [].
 Definition w_empty : world := mk_world [] [] [] [].
 
-(* FINDING (command channel): handle_lludp_message calls region.circuit.drop_message(message)
-   without checking message.finalized and outside any try.  A message-handler subscriber that
-   already sent or dropped a channel-524 chat makes the proxy trip its own guard: the RuntimeError
-   leaves handle_proxied_packet and the message logger never sees the message. *)
+(* REGRESSION (command channel, repaired by /repo d9b7ff1): a message-handler subscriber that
+   already dropped (or sent) a channel-524 chat used to make the proxy trip its own guard in
+   handle_lludp_message; now the command is still dispatched, the logger runs, nothing escapes *)
 Definition cfg_cmd_sub_drops : msgcfg :=
   mk_msgcfg KCommand false false [(1, (PTrue, Act false Drop (Ret false)))] [].
 
-Lemma proxy_guard_refuted : exists w c,
-  hp_status w c = StEscaped /\ count is_escape (hp_trace w c) = 1 /\ count is_log (hp_trace w c) = 0.
-Proof. exists w_one_sub, cfg_cmd_sub_drops. vm_compute. repeat split. Qed.
+Lemma ex_cmd_sub_drops : hp_trace w_one_sub cfg_cmd_sub_drops =
+  [ESub HSessNamed 1; EOp Drop true; ECmd; ELog true true false 0]
+  /\ hp_status w_one_sub cfg_cmd_sub_drops = StHandled.
+Proof. vm_compute. split; reflexivity. Qed.
 
-(* the same guard trips inside the RLV loop when two commands of one message are handled; there
+(* NOTE (not repaired): the same guard still trips inside the RLV loop when two commands of one message are handled; there
    the proxy's own try/except swallows it, but the message is then treated as "not all handled"
    and handle_lludp_message hooks run on the already dropped message *)
 Definition hs_rlv_both : hookset := mk_hookset None (Some (Ret false)) (Some [PRet true; PRet true]).
@@ -905,17 +894,14 @@ Lemma rlv_double_drop_trips_guard :
   dropped (hp_final w_empty cfg_rlv_two_handled) = true.
 Proof. vm_compute. repeat split; auto 10. Qed.
 
-(* FINDING (RLV, empty command list): an owner-say chat "@" (or "@,,") parses to zero commands,
-   all_cmds_handled stays True, handle_lludp_message returns True: with no addon loaded at all the
-   message is neither forwarded nor dropped (a reliable one is never acked) - lost, unclaimed. *)
+(* REGRESSION (RLV, empty command list, repaired by /repo 40d86e5): an owner-say chat "@" parses to
+   zero commands; it used to be claimed by nobody yet not forwarded; now it is an ordinary message *)
 Definition cfg_rlv_empty : msgcfg := mk_msgcfg (KRlv 0) true false [] [].
 
-Lemma exactly_once_rlv_empty_refuted : exists w c,
-  mmods c = [] /\ msubs c = [] /\
-  hp_status w c = StHandled /\ count is_orig (hp_trace w c) = 0 /\
-  finalized (hp_final w c) = false /\ dropped (hp_final w c) = false /\
-  count (fun e => match e with EAck => true | _ => false end) (hp_trace w c) = 0.
-Proof. exists w_empty, cfg_rlv_empty. vm_compute. repeat split. Qed.
+Lemma ex_rlv_empty : cfg_unclaimed cfg_rlv_empty = true /\
+  hp_trace w_empty cfg_rlv_empty = [ELog false false false 0; EOrig 0]
+  /\ hp_status w_empty cfg_rlv_empty = StForward.
+Proof. vm_compute. repeat split. Qed.
 
 (* isolation does not extend to subscriber predicates: Event.notify evaluates the predicate outside
    its try/except, so a raising predicate of subscriber 1 keeps subscriber 2 from being notified *)
